@@ -183,7 +183,7 @@ extern uint32_t g_hi; /* ghost hash-head index */
         __CPROVER_requires(stream->level_buf == NULL ||                                            \
                            __CPROVER_is_fresh(stream->level_buf, stream->level_buf_size))          \
         __CPROVER_requires(g_bad == ((RD_BAD) ? 1 : 0) && g_lvlerr == (RD_LVLERR))                 \
-        __CPROVER_requires(g_ok == ((RD_GO) ? 1 : 0) && w_mc_calls == 0)                           \
+        __CPROVER_requires(g_ok == ((RD_GO) ? 1 : 0) && w_mc_calls == 0 && g_m0 == g_di)           \
         __CPROVER_assigns(RD_GO : __CPROVER_object_upto(LZ_ST.buffer, dict->hist_size),            \
                           LZ_ST.b_bytes_processed, LZ_ST.b_bytes_valid, LZ_ST.has_hist)            \
         __CPROVER_assigns(RD_GO && stream->level == 0 : __CPROVER_object_upto((uint8_t *) LZ_ST.head, sizeof(LZ_ST.head))) \
@@ -195,6 +195,7 @@ extern uint32_t g_hi; /* ghost hash-head index */
         __CPROVER_ensures(g_ok ==> (LZ_ST.b_bytes_processed == dict->hist_size &&                  \
                                     LZ_ST.b_bytes_valid == dict->hist_size &&                      \
                                     LZ_ST.has_hist == IGZIP_DICT_HASH_SET))                        \
+        LZ_DATA_ENSURES((g_ok && g_di < dict->hist_size) ==> LZ_ST.buffer[g_di] == dict->history[g_di]) \
         __CPROVER_ensures(g_ok ==> (w_mc_calls == 2 && w_mc_dst[0] == LZ_ST.buffer &&              \
                                     w_mc_src[0] == dict->history && w_mc_n[0] == dict->hist_size && \
                                     w_mc_dst[1] == RD_TABLE && w_mc_src[1] == dict->hashtable &&   \
